@@ -1147,6 +1147,19 @@ func (e *Env) evalCall(n *ECall) (*Val, error) {
 			return scalar(c.mkSlice(SInt, nil), types.NewSlice(types.Typ[types.Byte])), nil
 		case "nilbytes":
 			return scalar(&Term{"nilsl", SSl}, types.NewSlice(types.Typ[types.Byte])), nil
+		case "consttext":
+			// consttext(s): s consists of string literals of the program text and their concatenations only
+			if len(n.Args) != 1 {
+				return nil, fmt.Errorf("consttext(s)")
+			}
+			x, err := e.eval(n.Args[0])
+			if err != nil {
+				return nil, err
+			}
+			if x.T == nil || x.T.Sort != SStr {
+				return nil, fmt.Errorf("consttext: not a string")
+			}
+			return scalar(mk(SBool, "(ctext %s)", x.T.S), types.Typ[types.Bool]), nil
 		case "$visited":
 			// $visited(k): key k has already been produced by the range-over-map loop this invariant belongs to
 			if e.frame == nil || e.blk == nil || len(n.Args) != 1 {
